@@ -148,6 +148,10 @@ func genC10(r *simrt.RNG, tier string, variant int) Plan {
 		if r.Bool(0.05) {
 			op.Kind = "frame-bin"
 		}
+		if p.Family == "hostile-server" && r.Bool(0.2) {
+			// replay the server's last genuine response k more times
+			op = Op{Kind: "frame", Raw: fmt.Sprintf("@dup:%d", 1+r.Intn(4))}
+		}
 		p.Ops = append(p.Ops, op)
 	}
 	return p
@@ -325,6 +329,36 @@ func runC10HostileServer(e *Env, p *Plan) {
 		}
 		defer c.Close()
 		sent := 0
+		last := ""
+		chid := 0
+		push := func(k int) bool {
+			for ; k > 0 && sent < len(frames); k-- {
+				f := frames[sent]
+				sent++
+				mt := websocket.TextMessage
+				if f.Kind == "frame-bin" {
+					mt = websocket.BinaryMessage
+				}
+				raw := f.Raw
+				e.Probe("hostile-frames-sent")
+				simrt.Rec("hostile", trunc(raw), "", 0)
+				if strings.HasPrefix(raw, "@dup:") {
+					var n int
+					fmt.Sscanf(raw, "@dup:%d", &n)
+					for i := 0; i < n && last != ""; i++ {
+						e.Probe("duplicate-responses-sent")
+						if c.WriteMessage(websocket.TextMessage, []byte(last)) != nil {
+							return false
+						}
+					}
+					continue
+				}
+				if c.WriteMessage(mt, []byte(raw)) != nil {
+					return false
+				}
+			}
+			return true
+		}
 		for {
 			_, b, err := c.ReadMessage()
 			if err != nil {
@@ -337,24 +371,37 @@ func runC10HostileServer(e *Env, p *Plan) {
 			}
 			_ = json.Unmarshal(b, &req)
 			// before answering, push a few hostile frames
-			for k := 0; k < 3 && sent < len(frames); k++ {
-				f := frames[sent]
-				sent++
-				mt := websocket.TextMessage
-				if f.Kind == "frame-bin" {
-					mt = websocket.BinaryMessage
+			if !push(2) {
+				return
+			}
+			switch {
+			case req.Method == "T.Call" && len(req.ID) > 0 && len(req.Params) == 1:
+				last = fmt.Sprintf(`{"jsonrpc":"2.0","id":%s,"result":%q}`, req.ID, Result(req.Params[0], 0))
+				if c.WriteMessage(websocket.TextMessage, []byte(last)) != nil {
+					return
 				}
-				e.Probe("hostile-frames-sent")
-				simrt.Rec("hostile", trunc(f.Raw), "", 0)
-				if c.WriteMessage(mt, []byte(f.Raw)) != nil {
+			case req.Method == "T.Sub" && len(req.ID) > 0 && len(req.Params) == 1:
+				chid++
+				last = fmt.Sprintf(`{"jsonrpc":"2.0","id":%s,"result":%d}`, req.ID, chid)
+				if c.WriteMessage(websocket.TextMessage, []byte(last)) != nil {
+					return
+				}
+				if !push(2) {
+					return
+				}
+				for k := 0; k < 2; k++ {
+					v := fmt.Sprintf(`{"jsonrpc":"2.0","method":"xrpc.ch.val","params":[%d,%d]}`, chid, SubVal(req.Params[0], k))
+					if c.WriteMessage(websocket.TextMessage, []byte(v)) != nil {
+						return
+					}
+				}
+				cl := fmt.Sprintf(`{"jsonrpc":"2.0","method":"xrpc.ch.close","params":[%d]}`, chid)
+				if c.WriteMessage(websocket.TextMessage, []byte(cl)) != nil {
 					return
 				}
 			}
-			if req.Method == "T.Call" && len(req.ID) > 0 && len(req.Params) == 1 {
-				resp := fmt.Sprintf(`{"jsonrpc":"2.0","id":%s,"result":%q}`, req.ID, Result(req.Params[0], 0))
-				if c.WriteMessage(websocket.TextMessage, []byte(resp)) != nil {
-					return
-				}
+			if !push(1) {
+				return
 			}
 		}
 	})
@@ -370,7 +417,11 @@ func runC10HostileServer(e *Env, p *Plan) {
 	w := &World{E: e, P: p, Clients: []*Client{c}}
 	n := 2 + len(frames)/3
 	for i := 0; i < n; i++ {
-		w.Start(Op{Kind: "call", Client: 0, Tok: 100 + i}, nil)
+		kind := "call"
+		if i%3 == 1 {
+			kind = "sub"
+		}
+		w.Start(Op{Kind: kind, Client: 0, Tok: 100 + i, N: 2}, nil)
 		if !e.S.Settle(100 * time.Millisecond) {
 			return
 		}
@@ -383,7 +434,12 @@ func runC10HostileServer(e *Env, p *Plan) {
 	// survive and every call must return
 	w.CheckAllReturned("C10.client-survives-hostile-server")
 	e.S.Go("close-V", func() { c.Close(e) })
-	e.S.Settle(time.Second)
+	if !e.S.Settle(time.Second) {
+		return
+	}
+	if _, done := c.closeState(); !done {
+		e.Violate("C10.client-survives-hostile-server", "after the hostile frames the client's closer does not return: the client is wedged")
+	}
 	_ = hs.Close()
 	e.S.Settle(time.Second)
 }
